@@ -16,52 +16,77 @@ Proof. destruct n; reflexivity. Qed.
 
 (* ================================================================== (b) argsort / ES loop *)
 
-Lemma ins_In (x a : Q * nat) (l : list (Q * nat)) : In x (ins a l) <-> x = a \/ In x l.
+(* the order of np.argsort on floats (numbers by value, NaN last) is a total preorder *)
+Lemma zle_bool_iff (a b : zv) : zle_bool a b = true <-> zle a b.
+Proof.
+  destruct a as [x|], b as [y|]; cbn [zle_bool zle].
+  - apply Qle_bool_iff.
+  - tauto.
+  - split; [discriminate|tauto].
+  - tauto.
+Qed.
+
+Lemma zle_refl (a : zv) : zle a a.
+Proof. destruct a as [x|]; cbn [zle]; [apply Qle_refl|exact I]. Qed.
+
+Lemma zle_trans (a b c : zv) : zle a b -> zle b c -> zle a c.
+Proof.
+  destruct a as [x|], b as [y|], c as [z|]; cbn [zle]; try tauto.
+  apply Qle_trans.
+Qed.
+
+Lemma zle_bool_false (a b : zv) : zle_bool a b = false -> zle b a.
+Proof.
+  destruct a as [x|], b as [y|]; cbn [zle_bool zle]; try discriminate; try tauto.
+  intro H. apply Qlt_le_weak. apply Qle_bool_false_lt. exact H.
+Qed.
+
+Lemma ins_In (x a : zv * nat) (l : list (zv * nat)) : In x (ins a l) <-> x = a \/ In x l.
 Proof.
   induction l as [|y r IH]; cbn [ins].
   - cbn [In]. intuition.
-  - destruct (Qle_bool (fst a) (fst y)).
+  - destruct (zle_bool (fst a) (fst y)).
     + cbn [In]. intuition.
     + cbn [In]. rewrite IH. intuition.
 Qed.
 
-Lemma sort_pairs_In (x : Q * nat) (l : list (Q * nat)) : In x (sort_pairs l) <-> In x l.
+Lemma sort_pairs_In (x : zv * nat) (l : list (zv * nat)) : In x (sort_pairs l) <-> In x l.
 Proof.
   unfold sort_pairs. induction l as [|a r IH]; cbn [fold_right].
   - tauto.
   - rewrite ins_In, IH. cbn [In]. intuition.
 Qed.
 
-Definition hd_min (l : list (Q * nat)) : Prop :=
+Definition hd_min (l : list (zv * nat)) : Prop :=
   match l with
   | [] => True
-  | y :: _ => forall x, In x l -> (fst y <= fst x)%Q
+  | y :: _ => forall x, In x l -> zle (fst y) (fst x)
   end.
 
-Lemma ins_hd_min (a : Q * nat) (l : list (Q * nat)) : hd_min l -> hd_min (ins a l).
+Lemma ins_hd_min (a : zv * nat) (l : list (zv * nat)) : hd_min l -> hd_min (ins a l).
 Proof.
   destruct l as [|y r]; cbn [ins hd_min].
-  - intros _ x [Hx|[]]. subst. apply Qle_refl.
-  - intro H. destruct (Qle_bool (fst a) (fst y)) eqn:E.
-    + apply Qle_bool_iff in E. intros x [Hx|Hx].
-      * subst. apply Qle_refl.
-      * eapply Qle_trans; [exact E | apply H; exact Hx].
-    + apply Qle_bool_false_lt in E. intros x Hx.
+  - intros _ x [Hx|[]]. subst. apply zle_refl.
+  - intro H. destruct (zle_bool (fst a) (fst y)) eqn:E.
+    + apply zle_bool_iff in E. intros x [Hx|Hx].
+      * subst. apply zle_refl.
+      * eapply zle_trans; [exact E | apply H; exact Hx].
+    + apply zle_bool_false in E. intros x Hx.
       change (In x (y :: ins a r)) in Hx. destruct Hx as [Hx|Hx].
-      * subst. apply Qle_refl.
+      * subst. apply zle_refl.
       * apply ins_In in Hx. destruct Hx as [Hx|Hx].
-        -- subst. apply Qlt_le_weak. exact E.
+        -- subst. exact E.
         -- apply H. right. exact Hx.
 Qed.
 
-Lemma sort_hd_min (l : list (Q * nat)) : hd_min (sort_pairs l).
+Lemma sort_hd_min (l : list (zv * nat)) : hd_min (sort_pairs l).
 Proof.
   unfold sort_pairs. induction l as [|a r IH]; cbn [fold_right].
   - exact I.
   - apply ins_hd_min. exact IH.
 Qed.
 
-Lemma In_combine_seq (z : list Q) : forall (s : nat) (q : Q) (i : nat),
+Lemma In_combine_seq (z : list zv) : forall (s : nat) (q : zv) (i : nat),
   In (q, i) (combine z (seq s (List.length z))) <-> (s <= i)%nat /\ nth_error z (i - s) = Some q.
 Proof.
   induction z as [|x r IH]; intros s q i; cbn [List.length seq combine In].
@@ -76,11 +101,11 @@ Proof.
 Qed.
 
 (* the first index returned by argsort points at a minimal element *)
-Lemma argsort_head (z : list Q) :
+Lemma argsort_head (z : list zv) :
   z <> [] ->
-  exists (i0 : nat) (rest : list nat) (q0 : Q),
+  exists (i0 : nat) (rest : list nat) (q0 : zv),
     argsort z = i0 :: rest /\ nth_error z i0 = Some q0 /\
-    forall (j : nat) (q : Q), nth_error z j = Some q -> (q0 <= q)%Q.
+    forall (j : nat) (q : zv), nth_error z j = Some q -> zle q0 q.
 Proof.
   intro Hne. unfold argsort.
   set (l := combine z (seq 0 (List.length z))).
@@ -103,52 +128,70 @@ Qed.
 
 Section ESProofs.
   Variable row : Type.
-  Notation cand := (row * Q)%type.
+  Notation cand := (row * zv)%type.
 
-  (* what the loop selects from an aligned accumulated list *)
+  (* what the loop selects from the accumulated list *)
   Definition sel_idx (lamb : nat) (A : list cand) : list nat :=
     firstn (Nat.min (List.length (map fst A)) lamb) (argsort (map snd A)).
 
+  (* the state is a function of the accumulated survivors A (both arrays stay in step) *)
   Definition aligned (lamb : nat) (st : es_state row) (A : list cand) : Prop :=
     usc st = map fst A /\ zc st = map snd A /\
     us st = gather (map fst A) (sel_idx lamb A) /\ zs st = gather (map snd A) (sel_idx lamb A).
+
+  Lemma aligned_unique (lamb : nat) (st st' : es_state row) (A : list cand) :
+    aligned lamb st A -> aligned lamb st' A -> st = st'.
+  Proof.
+    intros (H1 & H2 & H3 & H4) (G1 & G2 & G3 & G4).
+    destruct st as [a b c d], st' as [a' b' c' d']. cbn [usc zc us zs] in *. congruence.
+  Qed.
+
+  Lemma es_init_aligned (lamb : nat) : aligned lamb (es_init row) [].
+  Proof. unfold aligned, es_init, sel_idx. cbn. repeat split. Qed.
 
   Lemma es_step_first (lamb : nat) (st : es_state row) (g : list cand) :
     aligned lamb (es_step row true lamb st g) g.
   Proof. unfold aligned, es_step, sel_idx. cbn. repeat split. Qed.
 
+  (* also for a generation without survivors: nothing is appended, the selection is redone on A *)
   Lemma es_step_next (lamb : nat) (st : es_state row) (A g : list cand) :
-    g <> [] -> aligned lamb st A -> aligned lamb (es_step row false lamb st g) (A ++ g).
+    aligned lamb st A -> aligned lamb (es_step row false lamb st g) (A ++ g).
   Proof.
-    intros Hg (H1 & H2 & _ & _). unfold aligned, es_step, sel_idx.
-    destruct g as [|c g']; [congruence|].
-    cbn [map usc zc us zs]. rewrite H1, H2. rewrite !map_app. cbn [map]. repeat split.
+    intros (H1 & H2 & _ & _). unfold aligned, es_step, sel_idx.
+    cbn [usc zc us zs]. rewrite H1, H2. rewrite !map_app. repeat split.
   Qed.
 
   Lemma es_loop_aligned (lamb : nat) : forall (gens : list (list cand)) (st : es_state row) (A : list cand),
-    Forall (fun g => g <> []) gens -> aligned lamb st A ->
+    aligned lamb st A ->
     aligned lamb (es_loop row false lamb st gens) (A ++ List.concat gens).
   Proof.
-    induction gens as [|g r IH]; intros st A Hall Hal; cbn [es_loop List.concat].
+    induction gens as [|g r IH]; intros st A Hal; cbn [es_loop List.concat].
     - rewrite app_nil_r. exact Hal.
-    - inversion Hall as [|? ? Hg Hr]; subst. rewrite app_assoc. apply IH; [exact Hr|].
-      apply es_step_next; assumption.
+    - rewrite app_assoc. apply IH. apply es_step_next. exact Hal.
   Qed.
 
   Lemma es_run_aligned (lamb : nat) (gens : list (list cand)) :
-    gens <> [] -> Forall (fun g => g <> []) gens ->
     aligned lamb (es_loop row true lamb (es_init row) gens) (List.concat gens).
   Proof.
-    intros Hne Hall. destruct gens as [|g r]; [congruence|].
-    inversion Hall as [|? ? Hg Hr]; subst. cbn [es_loop List.concat].
-    apply es_loop_aligned; [exact Hr|]. apply es_step_first.
+    destruct gens as [|g r]; cbn [es_loop List.concat].
+    - apply es_init_aligned.
+    - apply es_loop_aligned. apply es_step_first.
+  Qed.
+
+  (* the result depends on the generations only through the accumulated survivors *)
+  Theorem es_run_concat (lamb : nat) (gens gens' : list (list cand)) :
+    List.concat gens = List.concat gens' -> es_run row lamb gens = es_run row lamb gens'.
+  Proof.
+    intro H. unfold es_run. f_equal.
+    apply (aligned_unique lamb _ _ (List.concat gens)); [apply es_run_aligned|].
+    rewrite H. apply es_run_aligned.
   Qed.
 
   Lemma aligned_result (lamb : nat) (st : es_state row) (A : list cand) :
     (1 <= lamb)%nat -> A <> [] -> aligned lamb st A ->
-    exists (u : row) (z : Q),
+    exists (u : row) (z : zv),
       es_result row st = ESPoint u z /\ In (u, z) A /\
-      forall c : cand, In c A -> (z <= snd c)%Q.
+      forall c : cand, In c A -> zle z (snd c).
   Proof.
     intros Hl HA (_ & _ & Hus & Hzs).
     assert (map snd A <> []) as Hz. { destruct A; [congruence|discriminate]. }
@@ -170,58 +213,80 @@ Section ESProofs.
       apply (Hmin j z). rewrite nth_error_map, Hj. reflexivity.
   Qed.
 
+  Lemma exists_nonempty_concat (gens : list (list cand)) :
+    Exists (fun g => g <> []) gens -> List.concat gens <> [].
+  Proof.
+    induction 1 as [g r Hg|g r _ IH]; cbn [List.concat].
+    - destruct g; [congruence|discriminate].
+    - intro H. apply app_eq_nil in H. tauto.
+  Qed.
+
   Theorem es_returns_min (lamb : nat) (gens : list (list cand)) :
-    (1 <= lamb)%nat -> gens <> [] -> Forall (fun g => g <> []) gens ->
-    exists (u : row) (z : Q),
+    (1 <= lamb)%nat -> Exists (fun g => g <> []) gens ->
+    exists (u : row) (z : zv),
       es_run row lamb gens = ESPoint u z /\ In (u, z) (List.concat gens) /\
-      forall c : cand, In c (List.concat gens) -> (z <= snd c)%Q.
+      forall c : cand, In c (List.concat gens) -> zle z (snd c).
   Proof.
-    intros Hl Hne Hall. unfold es_run.
-    apply aligned_result with (lamb := lamb) (A := List.concat gens); [exact Hl| |apply es_run_aligned; assumption].
-    destruct gens as [|g r]; [congruence|]. inversion Hall as [|? ? Hg _]; subst.
-    cbn [List.concat]. destruct g; [congruence|discriminate].
+    intros Hl Hex. unfold es_run.
+    apply aligned_result with (lamb := lamb) (A := List.concat gens);
+      [exact Hl|apply exists_nonempty_concat; exact Hex|apply es_run_aligned].
   Qed.
 
-  (* whatever the populations, a returned pair is never invented: its row is an accumulated survivor *)
-  Lemma gather_In {A} (l : list A) (idx : list nat) (x : A) : In x (gather l idx) -> In x l.
+  (* as soon as one survivor carries a NUMBER, the returned value is a number: the least one *)
+  Theorem es_returns_min_number (lamb : nat) (gens : list (list cand)) (u0 : row) (q0 : Q) :
+    (1 <= lamb)%nat -> In (u0, Some q0) (List.concat gens) ->
+    exists (u : row) (q : Q),
+      es_run row lamb gens = ESPoint u (Some q) /\ In (u, Some q) (List.concat gens) /\
+      (forall (u' : row) (q' : Q), In (u', Some q') (List.concat gens) -> (q <= q')%Q) /\
+      (forall u' : row, In (u', None) (List.concat gens) -> es_run row lamb gens <> ESPoint u' None).
   Proof.
-    unfold gather. intro H. apply in_flat_map in H. destruct H as (i & _ & Hi).
-    destruct (nth_error l i) eqn:E; [|destruct Hi]. destruct Hi as [->|[]].
-    eapply nth_error_In. exact E.
+    intros Hl Hin.
+    assert (Exists (fun g => g <> []) gens) as Hex.
+    { apply in_concat in Hin. destruct Hin as (g & Hg & Hin). apply Exists_exists.
+      exists g. split; [exact Hg|]. intro E. rewrite E in Hin. exact Hin. }
+    destruct (es_returns_min lamb gens Hl Hex) as (u & z & Hr & Hm & Hmin).
+    destruct z as [q|].
+    - exists u, q. split; [exact Hr|]. split; [exact Hm|]. split.
+      + intros u' q' H'. exact (Hmin (u', Some q') H').
+      + intros u' _. rewrite Hr. discriminate.
+    - exfalso. exact (Hmin (u0, Some q0) Hin).
   Qed.
 
-  Lemma es_loop_usc_sub (lamb : nat) : forall (gens : list (list cand)) (first : bool) (st : es_state row) (u : row),
-    In u (usc (es_loop row first lamb st gens)) ->
-    In u (usc st) \/ In u (map fst (List.concat gens)).
+  (* a generation without survivors changes nothing: earlier (and later) survivors are kept *)
+  Theorem es_empty_generation_skipped (lamb : nat) (gens1 gens2 : list (list cand)) :
+    es_run row lamb (gens1 ++ [] :: gens2) = es_run row lamb (gens1 ++ gens2) /\
+    ((1 <= lamb)%nat -> List.concat gens1 <> [] -> es_run row lamb (gens1 ++ [] :: gens2) <> ESEmpty).
   Proof.
-    induction gens as [|g r IH]; intros first st u H; cbn [es_loop List.concat] in *.
-    - left. exact H.
-    - apply IH in H. rewrite map_app, in_app_iff. destruct H as [H|H]; [|tauto].
-      unfold es_step in H. cbn [usc] in H. destruct first.
-      + tauto.
-      + apply in_app_iff in H. tauto.
+    split.
+    - apply es_run_concat. rewrite !concat_app. reflexivity.
+    - intros Hl Hne.
+      assert (Exists (fun g => g <> []) (gens1 ++ [] :: gens2)) as Hex.
+      { apply Exists_app. left. clear - Hne. induction gens1 as [|g r IH]; cbn [List.concat] in Hne; [congruence|].
+        destruct g as [|c g'].
+        - right. apply IH. exact Hne.
+        - left. discriminate. }
+      destruct (es_returns_min lamb _ Hl Hex) as (u & z & Hr & _). rewrite Hr. discriminate.
   Qed.
 
-  Lemma es_loop_us_sub (lamb : nat) : forall (gens : list (list cand)) (first : bool) (st : es_state row) (u : row),
-    gens <> [] -> In u (us (es_loop row first lamb st gens)) -> In u (usc (es_loop row first lamb st gens)).
-  Proof.
-    induction gens as [|g r IH]; intros first st u Hne H; [congruence|].
-    cbn [es_loop] in *. destruct r as [|g' r'].
-    - cbn [es_loop] in *. unfold es_step in *. cbn [us usc] in *. eapply gather_In. exact H.
-    - apply IH; [discriminate|exact H].
-  Qed.
-
-  Theorem es_result_is_survivor (lamb : nat) (gens : list (list cand)) (u : row) (z : Q) :
+  (* whatever the populations, a returned pair is never invented: it is an accumulated survivor *)
+  Theorem es_result_is_survivor (lamb : nat) (gens : list (list cand)) (u : row) (z : zv) :
     es_run row lamb gens = ESPoint u z -> In u (map fst (List.concat gens)).
   Proof.
-    unfold es_run, es_result. intro H.
-    destruct gens as [|g r]; [discriminate|].
-    destruct (us (es_loop row true lamb (es_init row) (g :: r))) as [|u' usr] eqn:E; [discriminate|].
-    destruct (zs (es_loop row true lamb (es_init row) (g :: r))) as [|z' zsr]; [discriminate|].
-    inversion H; subst u' z'.
-    assert (In u (us (es_loop row true lamb (es_init row) (g :: r)))) as Hin by (rewrite E; left; reflexivity).
-    apply es_loop_us_sub in Hin; [|discriminate].
-    apply es_loop_usc_sub in Hin. destruct Hin as [[]|Hin]. exact Hin.
+    intro H.
+    destruct (List.concat gens) as [|c A] eqn:EA.
+    - exfalso. unfold es_run in H. pose proof (es_run_aligned lamb gens) as (_ & _ & Hus & _).
+      rewrite EA in Hus. unfold es_result in H. rewrite Hus in H. cbn in H. discriminate.
+    - assert (Exists (fun g => g <> []) gens) as Hex.
+      { assert (In c (List.concat gens)) as Hc by (rewrite EA; left; reflexivity).
+        apply in_concat in Hc. destruct Hc as (g & Hg & Hin). apply Exists_exists.
+        exists g. split; [exact Hg|]. intro E. rewrite E in Hin. exact Hin. }
+      destruct lamb as [|l].
+      + exfalso. unfold es_run in H. pose proof (es_run_aligned 0 gens) as (_ & _ & Hus & _).
+        unfold sel_idx in Hus. rewrite Nat.min_0_r in Hus. cbn [firstn gather flat_map] in Hus.
+        unfold es_result in H. rewrite Hus in H. discriminate.
+      + destruct (es_returns_min (S l) gens ltac:(lia) Hex) as (u1 & z1 & Hr & Hm & _).
+        rewrite Hr in H. inversion H; subst u1 z1. rewrite <- EA.
+        apply in_map_iff. exists (u, z). split; [reflexivity|exact Hm].
   Qed.
 
   (* z[0] never fails once us is non-empty: us and z are gathered with the same in-range indices *)
@@ -234,70 +299,59 @@ Section ESProofs.
     apply nth_error_None in E. specialize (H i (or_introl eq_refl)). lia.
   Qed.
 
-  Lemma argsort_range (z : list Q) (i : nat) : In i (argsort z) -> (i < List.length z)%nat.
+  Lemma argsort_range (z : list zv) (i : nat) : In i (argsort z) -> (i < List.length z)%nat.
   Proof.
     unfold argsort. intro H. apply in_map_iff in H. destruct H as ([q j] & Hj & Hin). cbn in Hj. subst j.
     apply (proj1 (sort_pairs_In _ _)) in Hin. apply (proj1 (In_combine_seq _ _ _ _)) in Hin. destruct Hin as [_ Hn].
     apply nth_error_Some. rewrite Nat.sub_0_r in Hn. congruence.
   Qed.
 
-  Definition es_wf (st : es_state row) : Prop :=
-    List.length (us st) = List.length (zs st) /\ (List.length (zc st) <= List.length (usc st))%nat.
-
-  Lemma es_step_wf (first : bool) (lamb : nat) (st : es_state row) (g : list cand) :
-    es_wf st -> es_wf (es_step row first lamb st g).
-  Proof.
-    intros [_ Hle]. unfold es_wf, es_step. cbn [us zs usc zc].
-    set (usc' := if first then map fst g else usc st ++ map fst g).
-    set (zc' := if first then map snd g else match map snd g with [] => [] | _ :: _ => zc st end ++ map snd g).
-    assert (List.length zc' <= List.length usc')%nat as Hle'.
-    { unfold zc', usc'. destruct first; [rewrite !map_length; lia|].
-      rewrite !app_length, !map_length. destruct (map snd g); cbn [List.length]; lia. }
-    split; [|exact Hle'].
-    set (idx := firstn (Nat.min (List.length usc') lamb) (argsort zc')).
-    assert (forall i, In i idx -> (i < List.length zc')%nat) as Hr.
-    { intros i Hi. apply argsort_range. unfold idx in Hi.
-      rewrite <- (firstn_skipn (Nat.min (List.length usc') lamb) (argsort zc')). apply in_or_app. left. exact Hi. }
-    rewrite !gather_length; [reflexivity|exact Hr|]. intros i Hi. specialize (Hr i Hi). lia.
-  Qed.
-
-  Lemma es_loop_wf (lamb : nat) : forall (gens : list (list cand)) (first : bool) (st : es_state row),
-    es_wf st -> es_wf (es_loop row first lamb st gens).
-  Proof.
-    induction gens as [|g r IH]; intros first st H; cbn [es_loop]; [exact H|].
-    apply IH. apply es_step_wf. exact H.
-  Qed.
-
   Theorem es_never_stuck (lamb : nat) (gens : list (list cand)) : es_run row lamb gens <> ESStuck.
   Proof.
     unfold es_run, es_result.
-    assert (es_wf (es_loop row true lamb (es_init row) gens)) as [H _].
-    { apply es_loop_wf. unfold es_wf, es_init. cbn. lia. }
+    pose proof (es_run_aligned lamb gens) as (_ & _ & Hus & Hzs).
+    set (A := List.concat gens) in *.
+    assert (forall i, In i (sel_idx lamb A) -> (i < List.length A)%nat) as Hr.
+    { intros i Hi. unfold sel_idx in Hi.
+      rewrite <- (map_length snd A). apply argsort_range.
+      rewrite <- (firstn_skipn (Nat.min (List.length (map fst A)) lamb) (argsort (map snd A))).
+      apply in_or_app. left. exact Hi. }
+    assert (List.length (us (es_loop row true lamb (es_init row) gens)) =
+            List.length (zs (es_loop row true lamb (es_init row) gens))) as H.
+    { rewrite Hus, Hzs. rewrite !gather_length; [reflexivity| |];
+        intros i Hi; rewrite map_length; apply Hr; exact Hi. }
     destruct (us (es_loop row true lamb (es_init row) gens)); [discriminate|].
     destruct (zs (es_loop row true lamb (es_init row) gens)); [cbn in H; lia|discriminate].
   Qed.
 
   (* every generation filtered out completely -> the empty search set *)
-  Lemma es_loop_all_empty (lamb : nat) : forall (gens : list (list cand)) (first : bool) (st : es_state row),
-    Forall (fun g => g = []) gens -> usc st = [] -> us st = [] ->
-    us (es_loop row first lamb st gens) = [].
+  Lemma all_empty_concat (gens : list (list cand)) : Forall (fun g => g = []) gens -> List.concat gens = [].
   Proof.
-    induction gens as [|g r IH]; intros first st Hall H1 H2; cbn [es_loop]; [exact H2|].
-    inversion Hall as [|? ? Hg Hr]; subst. apply IH; [exact Hr| |].
-    - unfold es_step. cbn [usc map]. rewrite H1. destruct first; reflexivity.
-    - unfold es_step. cbn [us usc map]. rewrite H1. destruct first; reflexivity.
+    induction 1 as [|g r Hg _ IH]; cbn [List.concat]; [reflexivity|]. rewrite Hg, IH. reflexivity.
   Qed.
 
   Theorem es_all_filtered_empty (lamb : nat) (gens : list (list cand)) :
     Forall (fun g => g = []) gens -> es_run row lamb gens = ESEmpty.
   Proof.
     intro H. unfold es_run, es_result.
-    rewrite (es_loop_all_empty lamb gens true (es_init row) H eq_refl eq_refl). reflexivity.
+    pose proof (es_run_aligned lamb gens) as (_ & _ & Hus & _).
+    rewrite (all_empty_concat gens H) in Hus. rewrite Hus. reflexivity.
+  Qed.
+
+  (* and conversely: the empty search set is returned ONLY when no generation had a survivor *)
+  Theorem es_empty_only_if_all_filtered (lamb : nat) (gens : list (list cand)) :
+    (1 <= lamb)%nat -> es_run row lamb gens = ESEmpty -> Forall (fun g => g = []) gens.
+  Proof.
+    intros Hl He. apply Forall_forall. intros g Hg.
+    destruct g as [|c g']; [reflexivity|]. exfalso.
+    assert (Exists (fun g => g <> []) gens) as Hex.
+    { apply Exists_exists. exists (c :: g'). split; [exact Hg|discriminate]. }
+    destruct (es_returns_min lamb gens Hl Hex) as (u & z & Hr & _). rewrite Hr in He. discriminate.
   Qed.
 
   Theorem es_result_sound (lamb : nat) (gens : list (list cand)) :
     es_run row lamb gens <> ESStuck /\
-    forall (u : row) (z : Q), es_run row lamb gens = ESPoint u z -> In u (map fst (List.concat gens)).
+    forall (u : row) (z : zv), es_run row lamb gens = ESPoint u z -> In u (map fst (List.concat gens)).
   Proof. split; [apply es_never_stuck|apply es_result_is_survivor]. Qed.
 
   Theorem es_all_filtered_failed_search (lamb : nat) (gens : list (list cand)) :
@@ -1098,17 +1152,20 @@ Qed.
 
 (* concrete instances (non-vacuity and the stuck cases), by computation *)
 Example es_example_ok :
-  es_run nat 2 [[(1%nat, 3#1); (2%nat, 1#1); (3%nat, 5#2)]; [(4%nat, 2#1); (5%nat, 1#2)]] = ESPoint 5%nat (1#2)%Q.
+  es_run nat 2 [[(1%nat, Some (3#1)); (2%nat, Some (1#1)); (3%nat, Some (5#2))]; [(4%nat, Some (2#1)); (5%nat, Some (1#2))]]
+  = ESPoint 5%nat (Some (1#2)).
 Proof. vm_compute. reflexivity. Qed.
 
 Example es_example_all_filtered :
   es_run nat 2 [[]; []] = ESEmpty.
 Proof. vm_compute. reflexivity. Qed.
 
+(* a later generation without survivors, then a population whose acquisition values are NaN:
+   the best earlier survivor is still returned *)
 Example es_example_later_generation_empty :
-  List.concat [[(1%nat, 3#1); (2%nat, 1#1)]; @nil (nat * Q)] <> [] /\
-  es_run nat 2 [[(1%nat, 3#1); (2%nat, 1#1)]; []] = ESEmpty.
-Proof. split; [discriminate|vm_compute; reflexivity]. Qed.
+  es_run nat 2 [[(1%nat, Some (3#1)); (2%nat, Some (1#1))]; []] = ESPoint 2%nat (Some (1#1)) /\
+  es_run nat 2 [[(1%nat, Some (3#1)); (2%nat, Some (1#1))]; []; [(3%nat, None); (4%nat, None)]] = ESPoint 2%nat (Some (1#1)).
+Proof. vm_compute. split; reflexivity. Qed.
 
 Example mask_example :
   selection_mask [2; 1; 1; 1; 1; 1; 1; 1] 5 = MOk [0; 1; 1; 2; 3; 4] /\
